@@ -34,6 +34,17 @@ def gen_cases(ctx):
             P = rng.choice([2, 3, 4, 5, 8, 9, 12])
             cases.append(nc.make_case(rng, P, typ, ncalls=rng.choice([2, 3, 4]), barrier=0))
             cases.append(nc.make_case(rng, P, typ, ncalls=rng.choice([2, 3]), barrier=1))
+    # algorithms whose consecutive calls must compose (allgather, binary, pex, pcx, rsx, ranges): every scheduler
+    # adversary on sizes with incomplete groups, several calls without barrier (a wildcard receive that is not
+    # bound to its call shows up when one sender is starved while its neighbour runs ahead)
+    for typ in (1, 1, 0, 3, 4, 5, 7):
+        for P in ([3, 5, 6, 7, 10, 11, 13] if typ == 1 else [3, 6]):
+            for adv in range(8):
+                if typ != 1 and adv % 3:
+                    continue
+                c = nc.make_case(rng, P, typ, ncalls=rng.choice([3, 4]), barrier=0, style=rng.choice(["dense", "all", "random"]) if hasattr(nc, "STYLES") and "dense" in nc.STYLES else None)
+                c.adv = adv
+                cases.append(c)
     # legacy entry points
     for api in (1, 2, 3, 4):
         for _ in range(8 if ctx.quick else 60):
